@@ -43,13 +43,15 @@ type Checker struct {
 	mu        sync.Mutex
 	Extra     map[string]interface{}
 	allBackends bool
+	noSafety    bool
 }
 
 func NewChecker(prop, tier string, seed int) *Checker {
 	return &Checker{Prop: prop, Tier: tier, Seed: seed, Start: time.Now(), Functions: map[string]string{}, Trusted: map[string]int{}, Extra: map[string]interface{}{}, allBackends: tier == "thorough"}
 }
 
-// inputVars collects scalar free variables of a formula (the model of interest)
+// inputVars collects the terms whose model values describe a counterexample: scalar free variables,
+// and reads of input arrays (for a read at a symbolic index the index term is requested too).
 func inputVars(roots ...*Term) []*Term {
 	seen := map[int64]bool{}
 	var out []*Term
@@ -62,8 +64,19 @@ func inputVars(roots ...*Term) []*Term {
 		if t.Op == "var" && (t.S.Kind == 0 || t.S.Kind == 1) {
 			out = append(out, t)
 		}
-		if t.Op == "select" && !t.bound && t.Args[0].Op == "var" && t.S.Kind <= 1 {
-			out = append(out, t)
+		if t.Op == "select" && !t.bound && t.S.Kind <= 1 && t.Args[1].S.Kind == 1 {
+			// read of an input array, possibly through later stores: ask for the INITIAL content at that index
+			base := t.Args[0]
+			for base.Op == "store" {
+				base = base.Args[0]
+			}
+			if base.Op == "var" {
+				bt := Select(base, t.Args[1])
+				if bt.Op == "select" && !seen[-bt.id] {
+					seen[-bt.id] = true
+					out = append(out, bt)
+				}
+			}
 		}
 		for _, a := range t.Args {
 			walk(a)
@@ -73,10 +86,43 @@ func inputVars(roots ...*Term) []*Term {
 		walk(r)
 	}
 	sort.Slice(out, func(i, j int) bool { return termLabel(out[i]) < termLabel(out[j]) })
-	if len(out) > 300 {
-		out = out[:300]
+	if len(out) > 400 {
+		out = out[:400]
 	}
 	return out
+}
+
+// modelTerms expands the input terms into the get-value list (select → index, value)
+func modelTerms(vars []*Term) []*Term {
+	var out []*Term
+	for _, v := range vars {
+		if v.Op == "select" {
+			out = append(out, v.Args[1])
+		}
+		out = append(out, v)
+	}
+	return out
+}
+
+func buildModel(vars []*Term, vals []uint64) map[string]uint64 {
+	m := map[string]uint64{}
+	k := 0
+	for _, v := range vars {
+		if v.Op == "select" {
+			if k+1 >= len(vals) {
+				break
+			}
+			m[fmt.Sprintf("%s[%#x]", v.Args[0].Name, vals[k])] = vals[k+1]
+			k += 2
+			continue
+		}
+		if k >= len(vals) {
+			break
+		}
+		m[v.Name] = vals[k]
+		k++
+	}
+	return m
 }
 
 func termLabel(t *Term) string {
@@ -84,9 +130,6 @@ func termLabel(t *Term) string {
 	case "var":
 		return t.Name
 	case "select":
-		if t.Args[1].IsConst() {
-			return fmt.Sprintf("%s[%#x]", t.Args[0].Name, t.Args[1].Val)
-		}
 		return fmt.Sprintf("%s[t%d]", t.Args[0].Name, t.Args[1].id)
 	}
 	return fmt.Sprintf("t%d", t.id)
@@ -193,7 +236,7 @@ func (c *Checker) batch(obs []Oblig) {
 
 func (c *Checker) single(o Oblig) {
 	vars := inputVars(o.PC, o.Cond)
-	q := SMTQuery([]*Term{o.PC, Not(o.Cond)}, vars)
+	q := SMTQuery([]*Term{o.PC, Not(o.Cond)}, modelTerms(vars))
 	r := Solve(q, c.allBackends)
 	res := ObResult{Name: o.Name, Kind: o.Kind, Backend: r.Backend, Seconds: r.Seconds, Tried: r.Tried, Size: len(q.Text)}
 	oo := o
@@ -203,12 +246,7 @@ func (c *Checker) single(o Oblig) {
 		res.Result = "discharged"
 	case "sat":
 		res.Result = "violated"
-		res.Model = map[string]uint64{}
-		for i, v := range vars {
-			if i < len(r.Values) {
-				res.Model[termLabel(v)] = r.Values[i]
-			}
-		}
+		res.Model = buildModel(vars, r.Values)
 		res.vars = vars
 		res.Output = r.Output
 	case "error":
@@ -258,6 +296,7 @@ type replayFile struct {
 
 func (c *Checker) Finish(w *World, replayer func(r *ObResult) (bool, interface{})) int {
 	known := loadKnown()
+	batchRep := c.batchReplay(w, known)
 	sort.Slice(c.Results, func(i, j int) bool { return c.Results[i].Name < c.Results[j].Name })
 	nOb, nDis, nTriv := 0, 0, 0
 	back := map[string]int{}
@@ -297,7 +336,9 @@ func (c *Checker) Finish(w *World, replayer func(r *ObResult) (bool, interface{}
 			}
 			confirmed := false
 			var rep interface{}
-			if replayer != nil && r.Model != nil {
+			if br, ok := batchRep[r.Name]; ok {
+				confirmed, rep = br.ok, br.rep
+			} else if replayer != nil && r.Model != nil {
 				confirmed, rep = replayer(r)
 			}
 			dir := "/verif/replays/" + c.Prop
@@ -424,4 +465,38 @@ func sanitizeFile(s string) string {
 		s = s[:150]
 	}
 	return s
+}
+
+type repResult struct {
+	ok  bool
+	rep interface{}
+}
+
+func (c *Checker) isKnown(known []KnownFinding, name string) bool {
+	for _, k := range known {
+		if k.Property != c.Prop || k.Fixed {
+			continue
+		}
+		if k.Obligation == name || (strings.HasSuffix(k.Obligation, "*") && strings.HasPrefix(name, strings.TrimSuffix(k.Obligation, "*"))) {
+			return true
+		}
+	}
+	return false
+}
+
+// batchReplay replays all CPU counterexamples of a run with one `go test` per package
+func (c *Checker) batchReplay(w *World, known []KnownFinding) map[string]repResult {
+	out := map[string]repResult{}
+	var todo []*ObResult
+	for i := range c.Results {
+		r := &c.Results[i]
+		if r.Result == "violated" && r.Model != nil && strings.Contains(r.Name, "@op=") && !c.isKnown(known, r.Name) {
+			todo = append(todo, r)
+		}
+	}
+	if len(todo) == 0 {
+		return out
+	}
+	replayCPU(w, todo, out)
+	return out
 }
